@@ -15,7 +15,7 @@ import asyncio
 import random
 
 from .common import wire, backends, imapresp, mutf7, gen
-from .common.model import Model, nats, unnats
+from .common.model import Model, nats, unnats, batch
 from .common.report import Part, guarded
 
 RULE = ('L1: random byte strings / Unicode names (ASCII, &, controls, Latin-1, CJK, astral) through the real parsers and serialisers and the Lean models; '
@@ -336,8 +336,66 @@ def worker(job):
     r = random.Random(seed)
     part = Part()
     l1(part, r, n1)
+    l1_framing(part, r, max(50, n1 // 2))
     l3(part, r, n3)
     return part.result()
+
+
+def l1_framing(part, r, n):
+    """`IMAPConnection.readline` on a byte stream vs `Framing.readCmd` (about which C18_framing is proved): how many bytes one command takes"""
+    from pymap.imap import IMAPConnection
+    lits = [b'', b'x', b'ends in {5+}', b'{5+}', b'{5+}\r\n', b'a {2', b'\r\n', b'{0+}\r\n{1+}\r\n', b'{12345678901234567890+}', b'}', b'+}\r\n', b'\xe9\xe9\\\xe9a {2', b'\n']
+    texts = [b'', b'a APPEND INBOX ', b' ', b'000+}', b'x {3}', b'{', b'{+}', b'{1+', b'a LOGIN ', b'\r', b'{5 +}', b'{-1+}', b' {05+}']
+    streams = []
+    for _ in range(n):
+        x = r.random()
+        if x < 0.7:
+            s = b''
+            for _ in range(r.randint(0, 3)):
+                lit = r.choice(lits) if r.random() < 0.7 else gen.raw_bytes(r, 12)
+                s += r.choice(texts) + b'{%d+}' % len(lit) + r.choice([b'\r\n', b'\n']) + lit
+            s += r.choice(texts) + r.choice([b'\r\n', b'\n', b''])
+            s += r.choice([b'', b'b NOOP\r\n', b'{3+}\r\nabc\r\n'])
+        else:
+            s = gen.raw_bytes(r, 40).replace(b'\x00', b'{1+}\n')
+        if r.random() < 0.15:
+            s = s[:r.randint(0, len(s))]
+        streams.append(s)
+    res = batch(['frame ' + nats(s) for s in streams])
+
+    async def real(s):
+        conn = IMAPConnection.__new__(IMAPConnection)
+        conn.reader = asyncio.StreamReader()
+        conn.reader.feed_data(s)
+        conn.reader.feed_eof()
+        try:
+            return str(len(await conn.readline()))
+        except (EOFError, asyncio.IncompleteReadError):
+            return 'none'
+    import signal
+
+    class Spin(Exception):
+        pass
+
+    def alarm(signum, frame):
+        raise Spin()
+    old_handler = signal.signal(signal.SIGALRM, alarm)
+    for s, mres in zip(streams, res):
+        with guarded(part, 'C18 L1 framing', dict(level='L1', stream=list(s))):
+            signal.setitimer(signal.ITIMER_REAL, 2.0)
+            try:
+                got = asyncio.run(real(s))
+            except Spin:
+                got = 'spin'
+                part.violation('monitor', f'IMAPConnection.readline spins without reading anything on {s[:120]!r} (stream ended)', dict(level='L1', stream=list(s)),
+                               signature='framing-spin')
+            finally:
+                signal.setitimer(signal.ITIMER_REAL, 0)
+            part.stat('l1-framing')
+            part.case(key='frame:' + s.hex()[:200], nontrivial=b'+}' in s)
+            if got != mres and got != 'spin':
+                part.violation('correspondence', f'IMAPConnection.readline took {got} bytes of {s[:120]!r}, Framing.readCmd {mres}', dict(level='L1', stream=list(s)), signature='l1-framing')
+    signal.signal(signal.SIGALRM, old_handler)
 
 
 def run(ctx):
